@@ -6,7 +6,7 @@ from .common import *
 
 META = {
     'title': 'CRC: reflected polynomial and x^-32 constant derived in GF(2)[x], table generator steps (forward/backward mirror), byte loops, crc32 init/final xor, fixers keep length and patch one 4-byte window',
-    'expected_min': 12,
+    'expected_min': 95,
     'explanation': 'POLY32_1 is compared with the bit reversal of 0x04C11DB7 and POLY32_1i with x^-32 mod P computed independently; the table generators, '
                    'forward and backward byte loops, crc32, crc32_fix (32-step shift-and-add multiplication by x^-32) and crc32_fix_pos are normalised '
                    'and compared with restatements; the backward table step is checked to undo the forward step on every 8-bit state for a small '
